@@ -9,7 +9,8 @@ open Proto Params
       push / pop                           duplicate / drop the top state
       add <name> <ini> <lo|N> <hi|N> <fx 1|0|N> <front 0|1>
       fix <name=bits|N|U,...|->            (N = None, U = not castable to float)
-      float <name=ini/lo/hi,...|->         each of ini, lo, hi is bits or N
+      float <name=ini/lo/hi,...|->         each of ini, lo, hi is bits, N (None) or U (not castable);
+                                           fewer than three items = a too short sequence
       setv <name> <bits>
       union <left 0|1> <name/ini/lo/hi/fx;...|->
       copy
@@ -87,10 +88,12 @@ def pKV (s : String) : String × String :=
 def pFixReq (s : String) : List (String × FixVal Float) :=
   (pList pKV s).map (fun kv => (kv.1, if kv.2 == "U" then .bad else if kv.2 == "N" then .cur else .val (pF kv.2)))
 
+def pFV (s : String) : FixVal Float := if s == "U" then .bad else if s == "N" then .cur else .val (pF s)
+
 def pFloatReq (s : String) : List (String × PSet.FloatEntry Float) :=
   (pList pKV s).map (fun kv => match kv.2.splitOn "/" with
-    | [a, b, c] => (kv.1, (pO a, pO b, pO c))
-    | _ => (kv.1, (none, none, none)))
+    | [a, b, c] => (kv.1, .entry (pFV a) (pFV b) (pFV c))
+    | _ => (kv.1, .short))
 
 def pSel (s : String) : Option (List Nat) := if s == "N" then none else some (pList pN s)
 
